@@ -20,7 +20,7 @@ META = {
     "exhaustive": {"quick": False, "thorough": False},
     "exhaustive_space": {"quick": "all partitions of frame parts up to 12 bytes; all single cuts over whole streams; all single timeout positions",
                          "thorough": "all partitions of frame parts up to 16 bytes; all single cuts and all pairs of cuts over whole streams; all single/double timeout positions"},
-    "bounds": "exhaustive partitions only for frame parts <= 16 bytes; timeouts are injected in the frame phase only (a timeout during the opening handshake aborts connect() by design); EAGAIN/SSLWantRead+select branch of _socket.recv is not driven here",
+    "bounds": "exhaustive partitions only for frame parts <= 16 bytes; timeouts are injected in the frame phase only (a timeout during the opening handshake aborts connect() by design); the EAGAIN/SSLWantRead+select branch of the transport read is driven at every byte position (spurious, and followed by a gap longer than the socket timeout)",
     "required_counters": ["segmentations_run", "timeouts_injected", "head_cut_runs"],
     "assumptions": [],
 }
@@ -87,6 +87,7 @@ def run(res, tier, seed, shard, nshards):
                 continue
             jobs.append(("parts", name, st, call))
             jobs.append(("timeouts", name, st, call))
+            jobs.append(("eagain", name, st, call))
         jobs.append(("headcuts", name, st, CALLS[0]))
         jobs.append(("headcuts", name, st, CALLS[1]))
     for i in range(40 if tier == "quick" else 400):
@@ -124,6 +125,17 @@ def run(res, tier, seed, shard, nshards):
                         cuts = sorted({rng.randrange(1, n) for _ in range(3)})
                         plan = {rng.randrange(0, len(cuts) + 1): rng.randrange(1, 4) for _ in range(2)}
                         one(res, W, st, call, cuts, plan, None, (name, "timeout-rand"))
+            elif job[0] == "eagain":
+                # the EAGAIN / SSLWantRead branch of the transport read: spurious (data follows at once) and followed by
+                # a real gap longer than the socket timeout (= a receive timeout at that byte position)
+                _, name, st, call = job
+                n = len(st)
+                k = 0
+                for pos in range(0, n):
+                    for variant in ("spurious", "then-gap"):
+                        k += 1
+                        if (k + ji) % nshards == shard:
+                            one(res, W, st, call, list(range(1, n)), None, None, (name, "eagain-" + variant), eagain=(pos, variant))
             elif job[0] == "headcuts":
                 _, name, st, call = job
                 # whole stream = response (approx 129 bytes) + frames; positions are enumerated inside `one`
@@ -167,7 +179,7 @@ def run(res, tier, seed, shard, nshards):
 _pred_cache = {}
 
 
-def one(res, W, stream, call, cuts, tplan, head_cuts, tag):
+def one(res, W, stream, call, cuts, tplan, head_cuts, tag, eagain=None):
     name, cf = call
     key = (stream, call)
     if key not in _pred_cache:
@@ -186,18 +198,26 @@ def one(res, W, stream, call, cuts, tplan, head_cuts, tag):
                 for _ in range(tplan[i]):
                     segs.append((net.TIMEOUT, None))
                     ntimeouts += 1
+            if eagain and i == eagain[0]:
+                segs.append(("eagain", None))
+                if eagain[1] == "double":
+                    segs.append(("eagain", None))
+                if eagain[1] == "then-gap":
+                    segs.append(("pause", 7.5))  # longer than the 5 s socket timeout: the caller must see one timeout and resume
+                    ntimeouts += 1
+                res.count("eagain_injected")
             segs.append(ch)
         res.count("segmentations_run")
     else:
         res.count("head_cut_runs")
     obs = H.run_recv_script(stream, script, segs=segs, ending="eof", head_cuts=head_cuts, timeout=5)
     issues, judged, unj = M.compare(pred, obs)
-    res.case((stream, call, tuple(cuts or ()), tuple(sorted((tplan or {}).items())), tuple(head_cuts or ())),
+    res.case((stream, call, tuple(cuts or ()), tuple(sorted((tplan or {}).items())), tuple(head_cuts or ()), eagain),
              nontrivial=bool(cuts or tplan or head_cuts))
     res.count("timeouts_injected", ntimeouts)
     res.count("timeouts_observed", obs["timeouts"])
     res.count("kind:" + tag[1])
-    case = {"tag": tag, "stream": stream, "call": call, "cuts": cuts, "timeout_plan": tplan, "head_cuts": head_cuts}
+    case = {"tag": tag, "stream": stream, "call": call, "cuts": cuts, "timeout_plan": tplan, "head_cuts": head_cuts, "eagain": eagain}
     for kind, detail, fields in issues:
         res.violation("segmentation-dependent:" + kind, f"{tag}: {detail}", case, seg_kind=tag[1], **fields)
     if ntimeouts != obs["timeouts"] and not issues:
